@@ -1,3 +1,54 @@
 import PysphVerif.Driver.Common
-/-! Line-protocol driver for C08 (stub: not built yet). -/
-def main : IO Unit := PysphVerif.Driver.loopPure (fun _ => "bad-op")
+import PysphVerif.Gen.Kernels
+/-!
+Line protocol for C08 (exact rationals):
+
+  `list`                                   → `CubicSpline_1,CubicSpline_2,…`
+  `eval k=<Name>_<dim> q=<rat>`            → `w=<rat> dw=<rat> dw0=<rat> gh=<rat> gauss=<0|1> facq=<rat>
+                                              pihalf=<int> hpw=<n> hpd=<n> hpg=<n> rmin=<rat> radius=<rat>`
+       the polynomials of the piece selected by `q`, evaluated exactly at `q`
+  `grad k=… pos=<0|1> wdash=<rat> h=<rat> rij=<rat> x=<rat>,<rat>,<rat>` → `g=<rat>,<rat>,<rat>`
+       the generated gradient monomials (`grad` when `rij > rmin`, else `grad0`)
+  `checks k=…`                             → the table checks `chain=… support=… …` (logged as evidence)
+-/
+namespace PysphVerif.Driver.C08
+open PysphVerif.Wire PysphVerif.Kernel PysphVerif.Poly PysphVerif.Gen.Kernels
+
+def tableName (K : KTable) : String := K.name ++ "_" ++ toString K.dim
+
+def findTable (k : String) : Option KTable := all.find? (fun K => tableName K == k)
+
+def b01 (b : Bool) : String := if b then "1" else "0"
+
+def handle (line : String) : String :=
+  match tokens line with
+  | ["list"] => ",".intercalate (all.map tableName)
+  | cmd :: rest =>
+    let kv := kvs rest
+    match (lookup kv "k") >>= findTable with
+    | none => "bad-op"
+    | some K =>
+      if cmd = "eval" then
+        match (lookup kv "q") >>= parseRat? with
+        | none => "bad-op"
+        | some q =>
+          if q < 0 then "bad-op" else
+          let p := K.pieceAt q
+          s!"w={showRat (eval p.w q)} dw={showRat (eval p.dw q)} dw0={showRat (eval p.dw0 q)} gh={showRat (eval p.gh q)} gauss={b01 K.gauss} facq={showRat K.facQ} pihalf={K.piHalf} hpw={K.hpowW} hpd={K.hpowDw} hpg={K.hpowGh} rmin={showRat K.rmin} radius={showRat K.radius}"
+      else if cmd = "grad" then
+        match lookup kv "pos", (lookup kv "wdash") >>= parseRat?, (lookup kv "h") >>= parseRat?,
+              (lookup kv "rij") >>= parseRat?, (lookup kv "x") >>= parseList? parseRat? with
+        | some pos, some wd, some h, some rij, some x =>
+          if x.length ≠ 3 ∨ (pos ≠ "0" ∧ pos ≠ "1") then "bad-op" else
+          let ms := if pos = "1" then K.grad else K.grad0
+          if ms.length ≠ 3 then "bad-op" else
+          "g=" ++ showList showRat (ms.map (fun m => m.eval wd h rij x))
+        | _, _, _, _, _ => "bad-op"
+      else if cmd = "checks" then
+        s!"chain={b01 (chainOk K)} support={b01 (supportOk K)} deriv={b01 (derivOk K)} gradh={b01 (gradhOk K)} c1={b01 (c1Ok K)} sign={b01 (signOk K)} origin={b01 (originOk K)} grad={b01 (gradOk K)} norm={b01 (normOk K)} gaussfac={b01 (gaussFacOk K)}"
+      else "bad-op"
+  | _ => "bad-op"
+
+end PysphVerif.Driver.C08
+
+def main : IO Unit := PysphVerif.Driver.loopPure PysphVerif.Driver.C08.handle
